@@ -1207,6 +1207,7 @@ def loop_forms(tree):
       c += _rewrite_append_loop(fn, body)
       c += _thread_flags(fn, body)
       c += _thread_value(fn, body)
+      c += _rewrite_iter_tools(fn, body, noret)
       c += _rewrite_for_genexp(fn, body, noret)
       c += _rewrite_pull_loop(fn, body)
       c += _unroll_literal_loop(fn, body)
@@ -1226,7 +1227,8 @@ _PURE_FUNCS = {'map', 'filter', 'len', 'isinstance', 'issubclass', 'tuple', 'lis
 # methods of the repository's own immutable records (config_parser.ImportStatement is a NamedTuple) that only read fields;
 # rule C19.unique-names re-checks on every run that they still are side-effect free
 REPO_PURE_METHODS = {'bound_name', 'partial_path'}
-_PURE_METHODS = REPO_PURE_METHODS | {'get', 'keys', 'values', 'items', 'split', 'rsplit', 'partition', 'rpartition', 'startswith', 'endswith', 'join',
+_PURE_METHODS = REPO_PURE_METHODS | {'partial', 'attrgetter', 'itemgetter', 'methodcaller', 'chain', 'from_iterable', 'islice', 'filterfalse',
+                                      'takewhile', 'dropwhile', 'count', 'cycle', 'repeat', 'get', 'keys', 'values', 'items', 'split', 'rsplit', 'partition', 'rpartition', 'startswith', 'endswith', 'join',
                  'strip', 'lstrip', 'rstrip', 'format', 'lower', 'upper', 'count', 'index', 'find', 'rfind', 'copy', 'match',
                  'search', 'fullmatch', 'replace', 'isidentifier'}
 _MUTATORS = {'update', 'setdefault', 'clear', 'pop', 'popitem', 'append', 'add', 'extend', 'insert', 'remove', 'discard', 'sort', 'reverse'}
@@ -1620,6 +1622,7 @@ class _ExprForms(ast.NodeTransformer):
 
   def visit_Call(self, n):
     self.generic_visit(n)
+    n = self._flatten_partial(n)
     # all([a, b, c]) -> bool(a and b and c);  any((a, b)) -> bool(a or b)      (a literal display of pure operands)
     if isinstance(n.func, ast.Name) and n.func.id in ('all', 'any') and len(n.args) == 1 and not n.keywords \
         and isinstance(n.args[0], (ast.List, ast.Tuple)) and len(n.args[0].elts) >= 2 \
@@ -1634,6 +1637,33 @@ class _ExprForms(ast.NodeTransformer):
 
   def visit_Compare(self, n):
     self.generic_visit(n)
+    return self._compare(n)
+
+  def _flatten_partial(self, n):
+    # functools.partial(f, a, k=v)(b)  ->  f(a, b, k=v)
+    if isinstance(n, ast.Call) and isinstance(n.func, ast.Call) and ast.unparse(n.func.func) in ('functools.partial', 'partial') and n.func.args \
+        and not any(isinstance(x, ast.Starred) for x in n.func.args + n.args) and not any(k.arg is None for k in n.func.keywords + n.keywords):
+      self.n += 1
+      new = ast.Call(func=n.func.args[0], args=list(n.func.args[1:]) + list(n.args), keywords=list(n.func.keywords) + list(n.keywords))
+      return ast.copy_location(new, n)
+    return n
+
+  def _compare(self, n):
+    # S[-2:-1] == [E]   ->   len(S) > 1 and S[-2] == E
+    if len(n.ops) == 1 and isinstance(n.ops[0], ast.Eq) and isinstance(n.left, ast.Subscript) and isinstance(n.left.slice, ast.Slice) \
+        and n.left.slice.step is None and n.left.slice.lower is not None and n.left.slice.upper is not None \
+        and ast.unparse(n.left.slice.lower) == '-2' and ast.unparse(n.left.slice.upper) == '-1' \
+        and isinstance(n.comparators[0], ast.List) and len(n.comparators[0].elts) == 1 and _pure(n.left.value):
+      S = n.left.value
+      new = ast.BoolOp(op=ast.And(), values=[
+          ast.Compare(left=ast.Call(func=ast.Name(id='len', ctx=ast.Load()), args=[copy.deepcopy(S)], keywords=[]), ops=[ast.Gt()],
+                      comparators=[ast.Constant(value=1)]),
+          ast.Compare(left=ast.Subscript(value=S, slice=ast.UnaryOp(op=ast.USub(), operand=ast.Constant(value=2)), ctx=ast.Load()), ops=[ast.Eq()],
+                      comparators=[n.comparators[0].elts[0]])])
+      ast.copy_location(new, n)
+      ast.fix_missing_locations(new)
+      self.n += 1
+      return new
     # x in (*A, *B) / x in A + B   ->   x in A or x in B       (and the `not in` dual)
     if len(n.ops) == 1 and isinstance(n.ops[0], (ast.In, ast.NotIn)):
       c = n.comparators[0]
@@ -1652,6 +1682,9 @@ class _ExprForms(ast.NodeTransformer):
             parts.append(x)
         if any(isinstance(x, ast.Constant) for x in parts):
           parts = None
+      elif isinstance(c, ast.Call) and ast.unparse(c.func) in ('itertools.chain', 'chain') and len(c.args) >= 2 and not c.keywords \
+          and not any(isinstance(x, ast.Starred) for x in c.args):
+        parts = list(c.args)
       if parts and _pure(n.left):
         op = type(n.ops[0])
         vals = [ast.Compare(left=copy.deepcopy(n.left), ops=[op()], comparators=[p_]) for p_ in parts]
@@ -1675,6 +1708,35 @@ def _never_none(ge):
         and ast.unparse(c.args[0]) == gen.target.id and ast.unparse(c.args[1]) not in ('object', 'type(None)'):
       return True
   return False
+
+
+def _rewrite_iter_tools(fn, body_list, noret=()):
+  """for v in itertools.islice(G, 1): BODY-that-never-falls-through   ->   for v in G: BODY
+     for v in itertools.filterfalse(F, X): BODY                        ->   for v in X: if not F(v): BODY      (filter(F, X) likewise)"""
+  changed = 0
+  for st in body_list:
+    if not (isinstance(st, ast.For) and isinstance(st.iter, ast.Call) and isinstance(st.target, ast.Name) and not st.orelse):
+      continue
+    fnm = ast.unparse(st.iter.func)
+    if fnm in ('itertools.islice', 'islice') and len(st.iter.args) == 2 and ast.unparse(st.iter.args[1]) == '1' and st.body:
+      last = st.body[-1]
+      ends = isinstance(last, (ast.Raise, ast.Return, ast.Break)) or (isinstance(last, ast.Expr) and isinstance(last.value, ast.Call)
+                                                                  and isinstance(last.value.func, ast.Name) and last.value.func.id in noret)
+      if ends:
+        st.iter = st.iter.args[0]
+        changed += 1
+        fnm = ast.unparse(st.iter.func) if isinstance(st.iter, ast.Call) else ''
+    if isinstance(st.iter, ast.Call) and fnm in ('itertools.filterfalse', 'filterfalse', 'filter') and len(st.iter.args) == 2 \
+        and not _has_continue(st.body) and _pure(st.iter.args[0]):
+      F, X = st.iter.args
+      call = ast.Call(func=F, args=[ast.Name(id=st.target.id, ctx=ast.Load())], keywords=[])
+      call = _ExprForms()._flatten_partial(call)
+      test = call if fnm == 'filter' else ast.UnaryOp(op=ast.Not(), operand=call)
+      st.iter = X
+      st.body = [ast.copy_location(ast.If(test=test, body=st.body, orelse=[]), st)]
+      ast.fix_missing_locations(st)
+      changed += 1
+  return changed
 
 
 def _rewrite_for_genexp(fn, body_list, noret=()):
@@ -1933,6 +1995,20 @@ def idioms(tree):
 # closures that were lifted to module level (optionally bound with functools.partial)
 
 
+_refs_cache = None
+
+
+def _load_refs():
+  global _refs_cache
+  if _refs_cache is None:
+    try:
+      with open(os.path.join(os.path.dirname(TABLE), 'canon_refs.json')) as f:
+        _refs_cache = json.load(f)
+    except Exception:
+      _refs_cache = {}
+  return _refs_cache
+
+
 def _load_table():
   try:
     with open(TABLE) as f:
@@ -2115,6 +2191,88 @@ def unlift(tree, modname, table=None):
   return done
 
 
+def restore_function_names(tree, modname, table=None):
+  """A reference function (module level, or a method) that is missing, while a new function at the same level has
+  (mutually best) similar local bindings, was renamed: give it its reference name back, together with every reference to it."""
+  table = table if table is not None else _load_table()
+  ref_mod = table.get(modname)
+  if not ref_mod:
+    return 0
+  import difflib
+  from .canon import bindings
+  done = 0
+  levels = [(modname, tree.body)]
+  for st in tree.body:
+    if isinstance(st, ast.ClassDef):
+      levels.append(('%s.%s' % (modname, st.name), st.body))
+  for prefix, body in levels:
+    cur = {st.name: st for st in body if isinstance(st, FN)}
+    missing = [q.rsplit('.', 1)[1] for q in ref_mod if q.rsplit('.', 1)[0] == prefix and q.rsplit('.', 1)[1] not in cur]
+    new = [n for n in cur if '%s.%s' % (prefix, n) not in ref_mod]
+    if not missing or not new:
+      continue
+
+    def fps(seq):
+      return [fp for _n, fp in seq if not fp.startswith('param:')]
+    score = {}
+    for m in missing:
+      rb = fps(ref_mod['%s.%s' % (prefix, m)])
+      for n in new:
+        gb = fps(bindings(cur[n]))
+        if not rb and not gb:
+          continue
+        score[(m, n)] = difflib.SequenceMatcher(None, rb, gb, autojunk=False).ratio()
+    # who referred to the missing function on the reference tree, and who refers to the candidates now
+    refs_tbl = _load_refs().get(modname, {})
+    is_method_level = prefix != modname
+    def users_ref(m):
+      key = ('.' + m) if is_method_level else m
+      return {q for q, names in refs_tbl.items() if key in names and q != '%s.%s' % (prefix, m)}
+    def users_now(n):
+      out = set()
+      from .canon import _functions
+      for q, fnode in _functions(tree, modname):
+        if fnode is cur[n]:
+          continue
+        for x in ast.walk(fnode):
+          if (not is_method_level and isinstance(x, ast.Name) and x.id == n and isinstance(x.ctx, ast.Load)) or \
+             (is_method_level and isinstance(x, ast.Attribute) and x.attr == n and isinstance(x.value, ast.Name) and x.value.id in ('self', 'cls')):
+            out.add(q)
+      return out
+    for m in missing:
+      ur = users_ref(m)
+      for n in new:
+        if (m, n) in score and ur:
+          # a renamed function is still used from where the old one was used
+          if not (ur & users_now(n)):
+            del score[(m, n)]
+          else:
+            rp = [nm for nm, fp in ref_mod['%s.%s' % (prefix, m)] if fp.startswith('param:')]
+            from .canon import _params
+            if rp == _params(cur[n]):
+              score[(m, n)] = max(score[(m, n)], 0.6) + 0.2
+    for m in missing:
+      cands = sorted(((sc, n) for (mm, n), sc in score.items() if mm == m), reverse=True)
+      if not cands or cands[0][0] < 0.6:
+        continue
+      sc, n = cands[0]
+      # mutual best
+      if any(sc2 > sc for (m2, n2), sc2 in score.items() if n2 == n and m2 != m):
+        continue
+      if len(cands) > 1 and cands[1][0] >= sc:
+        continue
+      fn = cur[n]
+      is_method = prefix != modname
+      for x in ast.walk(tree):
+        if not is_method and isinstance(x, ast.Name) and x.id == n:
+          x.id = m
+        elif is_method and isinstance(x, ast.Attribute) and x.attr == n and isinstance(x.value, ast.Name) and x.value.id in ('self', 'cls'):
+          x.attr = m
+      fn.name = m
+      done += 1
+  return done
+
+
 def lifted_candidates(tree, modname, table=None):
   """Names of new module-level functions that look like a reference closure that is missing now."""
   table = table if table is not None else _load_table()
@@ -2158,12 +2316,34 @@ def match_reference_shape(tree, modname, table=None):
         except SyntaxError:
           continue
         shape[name] = 'ifexp' if isinstance(e, ast.IfExp) else 'plain'
+    ref_for_iters = {fp.split(':', 1)[1] for _nm, fp in ref if fp.startswith('for0:')}
+    from .canon import _blank, bindings as _bindings
+    local_names = {nm for nm, _fp in _bindings(fn)}
     for _fn, body in _scoped_bodies(fn):
       if _fn is not None and _fn is not fn:
         continue
       i = 0
       while i < len(body):
         st = body[i]
+        # return any(C for x in X)  ->  for x in X: if C: return True / return False      when the reference loops over X
+        if isinstance(st, ast.Return) and isinstance(st.value, ast.Call) and isinstance(st.value.func, ast.Name) and st.value.func.id in ('any', 'all') \
+            and len(st.value.args) == 1 and isinstance(st.value.args[0], ast.GeneratorExp) and len(st.value.args[0].generators) == 1 \
+            and not st.value.args[0].generators[0].ifs and isinstance(st.value.args[0].generators[0].target, ast.Name):
+          ge = st.value.args[0]
+          gen = ge.generators[0]
+          if _blank(gen.iter, local_names) in ref_for_iters:
+            is_any = st.value.func.id == 'any'
+            test = ge.elt if is_any else ast.UnaryOp(op=ast.Not(), operand=ge.elt)
+            loop = ast.For(target=ast.Name(id=gen.target.id, ctx=ast.Store()), iter=gen.iter,
+                           body=[ast.If(test=test, body=[ast.Return(value=ast.Constant(value=is_any))], orelse=[])], orelse=[])
+            tail = ast.Return(value=ast.Constant(value=not is_any))
+            for x_ in (loop, tail):
+              ast.copy_location(x_, st)
+              ast.fix_missing_locations(x_)
+            body[i:i + 1] = [loop, tail]
+            n += 1
+            i += 2
+            continue
         if isinstance(st, ast.Assign) and len(st.targets) == 1 and isinstance(st.targets[0], ast.Name) and isinstance(st.value, ast.IfExp) \
             and shape.get(st.targets[0].id) == 'plain':
           v = st.value
@@ -2202,7 +2382,8 @@ def normalize(tree, modname):
     b = idioms(tree)
     ast.fix_missing_locations(tree)
     return 0, b
-  a = unlift(tree, modname)
+  a = restore_function_names(tree, modname)
+  a += unlift(tree, modname)
   cands = lifted_candidates(tree, modname)
   if cands:
     # helpers around a lifted closure are inlined first, so that all uses of the closure are back in one function
